@@ -61,4 +61,7 @@ let () =
   (* rc_quiet <hex body> : the no_lookalike test of the specification side *)
   register "rc_quiet" (fun args -> match args with
     | [h] -> if rs_quiet (unhexbytes h) then "1" else "0"
+    | _ -> "?args");
+  register "rc_tailquiet" (fun args -> match args with
+    | [h] -> if rs_tail_quiet (unhexbytes h) then "1" else "0"
     | _ -> "?args")
